@@ -105,6 +105,14 @@ def _teardown_restr(ctx, rep, n, label='teardown-restr'):
         if w is None:
             continue
         case = {'restr_universe': useed, 'history': hseed, 'ops': done}
+        if k % 2:
+            # recall the drones while they are unloaded (another source or none), then come back
+            tail = [('source', random.Random(useed).choice([s for s in ('A', 'B', None) if s != w.src]))]
+            tail += [('state', w.ident(i), 1) for i in w.placed() if type(i).__name__ == 'Drone']
+            tail += [('source', 'A')]
+            for op in tail:
+                w.apply(op)
+            case['ops'] = done + [[list(o) for o in tail]]
         removed = [i for i in w.placed() if type(i).__name__ != 'Character']
         try:
             R.teardown(types.SimpleNamespace(fits={1: w.fit}), random.Random(useed), True)
@@ -152,6 +160,23 @@ def _partial_removal(ctx, rep, pnames, n, label='partial'):
                     else:
                         break
                     for op in ops:
+                        w.apply(op)
+                        done.append(op)
+                # twins: of two modules of one type with charges on one fit, one leaves and the other loses its charge
+                # (a python modifier shared by both must keep listening for the one that stays)
+                by_type = {}
+                for it in w.all_items():
+                    if getattr(it, 'charge', None) is not None and it._fit is not None:
+                        by_type.setdefault((it._fit._vid, it._type_id), []).append(it)
+                twins = [v for v in by_type.values() if len(v) >= 2]
+                if twins:
+                    first, second = rnd.sample(rnd.choice(twins), 2)
+                    for op in (('rack_remove_item', first._vid, 'remove'), ('charge', second._vid, None)):
+                        w.apply(op)
+                        done.append(op)
+                # ... and life goes on for a few calls (what was removed must not hear of them either)
+                for _ in range(rnd.randint(0, 4)):
+                    for op in gen.next(w):
                         w.apply(op)
                         done.append(op)
                 n2, _ = W.rebuild(w)
@@ -263,7 +288,7 @@ def _k1_residue_witness(rep):
 def oracle(ctx):
     # the emptiness walk itself runs inside `correspondence` (it needs the same histories)
     _k1_residue_witness(ctx.report)
-    _partial_removal(ctx, ctx.report, ['projheavy', 'fleetheavy', 'basic'], ctx.n(40, 600))
+    _partial_removal(ctx, ctx.report, ['projheavy', 'fleetheavy', 'basic', 'pymods'], ctx.n(35, 500))
 
 
 def search(ctx, broken):
